@@ -289,22 +289,61 @@ def read_ndjson(path):
     return out
 
 
-def judge(ctx, module, cfg, events, name=None, timeout=1500, heap=None, consts=None):
-    """Trace validation: hand `events` (list of dicts; sessions start with {"ev":"reset","sid":..})
-    to the trace specification `module` and return (bad, result) where bad is the list of
-    rejection records printed by the spec as  VERDICT <json>.  The trace spec consumes the whole
-    log (rejected sessions are skipped to their end, so the rest is still examined)."""
-    d = ctx.spec_dir(name or module)
-    write_ndjson(os.path.join(d, "trace.ndjson"), events)
-    r = ctx.tlc(module, cfg, cwd=d, workers=1, timeout=timeout, heap=heap, consts=consts)
-    verdicts = r.json_lines("VERDICT")
-    if r.error or r.rc != 0 or not verdicts:
-        raise Inconclusive("trace validation %s/%s failed to run: rc=%d %s\n%s" % (
-            module, cfg, r.rc, r.error, r.out[-3000:]))
-    v = verdicts[-1]
-    if v.get("consumed") != len(events):
-        raise Inconclusive("trace spec %s consumed %s of %d lines" % (module, v.get("consumed"), len(events)))
-    return v.get("bad", []), r
+def split_log(events, max_lines):
+    """Cut a log into pieces of at most about max_lines lines, only at session starts (reset / robj lines);
+    logs without sessions may be cut anywhere.  Returns [(offset, lines)]."""
+    if len(events) <= max_lines:
+        return [(0, events)]
+    starts = [i for i, e in enumerate(events) if e.get("ev") in ("reset", "robj")]
+    if not starts:
+        return [(i, events[i:i + max_lines]) for i in range(0, len(events), max_lines)]
+    pieces, begin, prev = [], 0, None
+    for c in starts + [len(events)]:
+        if c - begin > max_lines and prev is not None and prev > begin:
+            pieces.append((begin, events[begin:prev]))
+            begin = prev
+        prev = c
+    pieces.append((begin, events[begin:]))
+    return pieces
+
+
+def judge(ctx, module, cfg, events, name=None, timeout=1500, heap=None, consts=None, max_lines=30000):
+    """Trace validation: hand `events` (list of dicts; sessions start with {"ev":"reset"|"robj",..}) to the trace
+    specification `module` and return (bad, result) where bad is the list of rejection records printed by
+    the spec as  VERDICT <json>.  The trace spec consumes the whole log (rejected sessions are skipped to
+    their end, so the rest is still examined).  Long logs are cut into pieces at session boundaries (any
+    line for stateless specs) and validated piece by piece; line numbers are mapped back."""
+    pieces = split_log(events, max_lines)
+    all_bad, last, drift = [], None, []
+    for k, (offset, part) in enumerate(pieces):
+        if not part:
+            continue
+        d = ctx.spec_dir((name or module) + ("-%d" % k if len(pieces) > 1 else ""))
+        write_ndjson(os.path.join(d, "trace.ndjson"), part)
+        r = ctx.tlc(module, cfg, cwd=d, workers=1, timeout=timeout, heap=heap, consts=consts, quiet=len(pieces) > 3 and k > 0)
+        verdicts = r.json_lines("VERDICT")
+        if r.error or r.rc != 0 or not verdicts:
+            raise Inconclusive("trace validation %s/%s failed to run: rc=%d %s\n%s" % (
+                module, cfg, r.rc, r.error, r.out[-3000:]))
+        v = verdicts[-1]
+        if v.get("consumed") != len(part):
+            raise Inconclusive("trace spec %s consumed %s of %d lines" % (module, v.get("consumed"), len(part)))
+        for b in v.get("bad", []):
+            b = dict(b)
+            b["line"] = b["line"] + offset
+            all_bad.append(b)
+        drift += [x + offset for x in v.get("drift", [])]
+        shutil.rmtree(d, ignore_errors=True)
+        if last is None:
+            last = r
+        else:
+            last.generated += r.generated
+            last.distinct += r.distinct
+            last.wall += r.wall
+    if last is None:
+        raise Inconclusive("no events to validate with %s" % module)
+    last.verdict = {"consumed": len(events), "bad": all_bad, "drift": drift}
+    return all_bad, last
 
 
 # --------------------------------------------------------------------------- results
